@@ -6,7 +6,9 @@ import (
 	"bytes"
 	"fmt"
 	"io"
+	"net/url"
 	"os"
+	"path/filepath"
 	"time"
 
 	"github.com/google/pprof/internal/driver"
@@ -80,6 +82,23 @@ func c01DriverProto(p *profile.Profile) (out Term) {
 		return L(S("reparse-err"), S(err.Error()))
 	}
 	return L(S("ok"), c01FrameView(q))
+}
+
+// c01AbsURLFiles is the oracle for Go's URL parser used by the driver's unsourceMappings: the
+// mapping file names that url.Parse accepts as absolute URLs (and that carry no volume name).
+func c01AbsURLFiles(p *profile.Profile) Term {
+	var out []string
+	seen := map[string]bool{}
+	for _, m := range p.Mapping {
+		if seen[m.File] || filepath.VolumeName(m.File) != "" {
+			continue
+		}
+		seen[m.File] = true
+		if u, err := url.Parse(m.File); err == nil && u.IsAbs() {
+			out = append(out, m.File)
+		}
+	}
+	return Ss(out)
 }
 
 func init() {
@@ -457,7 +476,15 @@ func runC01(c *Ctx) {
 		for j, st := range p.SampleType { // the driver wants distinct sample type names
 			st.Type = fmt.Sprintf("%s%d", st.Type, j)
 		}
-		c.Case("driver-proto", L(S("driverproto"), DumpProfile(p)), c01DriverProto(p), true, "op:driverproto")
+		c.Case("driver-proto", L(S("driverproto"), DumpProfile(p), c01AbsURLFiles(p)), c01DriverProto(p), true, "op:driverproto")
+	}
+	{ // witness of F34, always generated: a build-id-less mapping whose file name looks like a URL
+		p := &profile.Profile{SampleType: []*profile.ValueType{{Type: "samples", Unit: "count"}}}
+		m := &profile.Mapping{ID: 1, Start: 0x1000, Limit: 0x2000, File: "file:1"}
+		l := &profile.Location{ID: 1, Mapping: m, Address: 0x1800}
+		p.Mapping, p.Location = []*profile.Mapping{m}, []*profile.Location{l}
+		p.Sample = []*profile.Sample{{Location: []*profile.Location{l}, Value: []int64{1}}}
+		c.Case("finding-F34", L(S("driverproto"), DumpProfile(p), c01AbsURLFiles(p)), c01DriverProto(p), true, "op:driverproto")
 	}
 	// 2. list lengths around the packed switch, extreme values, huge ids (exhaustive lengths 0..5)
 	for nloc := 0; nloc <= 5; nloc++ {
